@@ -695,8 +695,30 @@ func (c *Conn) close(ctx context.Context, msg *message.Disconnect) error {
 		c.saveAndClearAllDownstreams(ctx)
 	}
 
-	c.wireConnMu.Lock()
-	defer c.wireConnMu.Unlock()
+	// reconnect keeps wireConnMu for a whole redial, which can take arbitrarily long (a broker that
+	// accepts the transport but never answers the connect request): the disconnect is done as soon
+	// as the mutex is free, but Close itself waits for that no longer than ctx allows.
+	res := make(chan error, 1)
+	go func() {
+		c.wireConnMu.Lock()
+		defer c.wireConnMu.Unlock()
+		res <- c.disconnectWithoutLock(ctx, msg)
+	}()
+	select {
+	case err := <-res:
+		return err
+	case <-ctx.Done():
+		select {
+		case err := <-res:
+			return err
+		default:
+			return ctx.Err()
+		}
+	}
+}
+
+// disconnectWithoutLock sends the Disconnect and closes the wire connection. The caller holds wireConnMu.
+func (c *Conn) disconnectWithoutLock(ctx context.Context, msg *message.Disconnect) error {
 	if err := c.wireConn.SendDisconnect(ctx, msg); err != nil {
 		if closeErr := c.wireConn.Close(); closeErr != nil {
 			c.logger.Warnf(ctx, "Failed to send Disconnect: %w", err)
